@@ -34,7 +34,14 @@ Prelude ==
   "class K { m = 1 }\n" \o
   "const cyc1 = cyc2;\nconst cyc2 = cyc1;\n" \o
   "type U4 = { t: \"a\" | \"b\"; x: 1 } | { t: \"b\"; y: 2 };\n" \o
-  "type U5 = { t: \"a\" | \"b\" } | { t: \"b\" | \"c\" };\n"
+  "type U5 = { t: \"a\" | \"b\" } | { t: \"b\" | \"c\" };\n" \o
+  \* declarations of a second, much longer file (lib/p_compile.py EXTRA_FILES): diagnostics raised inside them must be located there
+  "import { BadE as IBadE, CallE as ICallE, BadT as IBadT, BadI as IBadI, Rf as IRf } from \"./m\";\n" \o
+  \* a second requested parser that is materialised from a semantic type with a nested recursive named type
+  "type Fo = { name: string; children: Fo[] };\ntype Cm = { text: string; replies: Cm[] };\n" \o
+  "type FsEv = { type: \"created\"; payload: { root: Fo } } | { type: \"removed\"; payload: { path: string } };\n" \o
+  "type ThEv = { type: \"posted\"; payload: { top: Cm } } | { type: \"locked\"; payload: { by: string } };\n" \o
+  "type Sem1 = FsEv[\"payload\"];\n"
 
 Leaves == <<
   "string", "number", "boolean", "null", "undefined", "void", "any", "unknown", "never", "object", "symbol", "bigint",
@@ -43,7 +50,9 @@ Leaves == <<
   "Missing", "A.a", "typeof c", "typeof c.k", "typeof c.nested.deep", "typeof d", "typeof dc", "typeof Missing", "typeof E", "typeof K",
   "Date", "Map<string, A>", "Set<B>", "Map<string>", "Uint8Array", "Array<A>", "Array", "ReadonlyArray<B>", "Promise<A>", "Function", "Object", "String",
   "typeof cyc1", "U4", "U5", "`line1\nline2${string}`", "`a\\b${number}`", "`q\"uote${string}`", "\"multi\\nline\"",
-  "{}", "[]", "this", "unique symbol", "import(\"./m\").X", "import(\"./missing\").X"
+  "{}", "[]", "this", "unique symbol", "import(\"./m\").X", "import(\"./missing\").X",
+  "IBadE", "IBadE.Low", "ICallE", "IBadT", "IBadI", "IRf", "import(\"./m\").BadE", "import(\"./m\").CallE", "import(\"./m\").BadT",
+  "import(\"./m\").Rf", "ThEv[\"payload\"]", "FsEv[\"payload\"]", "(ThEv | FsEv)[\"payload\"]", "Fo", "Sem1"
 >>
 
 \* wrappers: <<prefix, suffix>> around the current expression X
@@ -79,5 +88,5 @@ GNext == /\ depth < MaxDepth
          /\ depth' = depth + 1
 GSpec == GInit /\ [][GNext]_gvars
 
-Program == Prelude \o "type T = " \o expr \o ";\nparse.buildParsers<{ T: T }>();\n"
+Program == Prelude \o "type T = " \o expr \o ";\nparse.buildParsers<{ T: T, Sem1: Sem1 }>();\n"
 =============================================================================
